@@ -102,7 +102,9 @@ def register(R):
       f'{CL}::_prevalence_threshold', P, types=cm, ret='rreal',
       may_raise=['ValueError'],
       ensures=[f'implies(cm.tn + cm.fp > 0 and {TPR} != {FPR},'
-               f' (result * ({TPR} - {FPR}) + {FPR}) * (result * ({TPR} - {FPR}) + {FPR}) == {TPR} * {FPR})'],
+               f' (result * ({TPR} - {FPR}) + {FPR}) * (result * ({TPR} - {FPR}) + {FPR}) == {TPR} * {FPR})',
+               # the zero-denominator convention: a chance-level classifier (tpr == fpr) has PT 0, not the limit 1/2
+               f'implies(cm.tn + cm.fp > 0 and cm.tp + cm.fn > 0 and {TPR} == {FPR}, result == 0)'],
       bounded='bounded_rates', note='PT = (sqrt(tpr*fpr) - fpr) / (tpr - fpr), stated without the root'))
 
   # dispatch: every enum member reaches its own function
